@@ -459,6 +459,11 @@ class Calls(DataModels):
                 I.ctx.assume(n >= 0)
                 prev_n = I.ghost.get('_G_n')
                 I.ghost['_G_n'] = n
+                # the callee's loop counters at its exit: unknown non-negative integers
+                for o in range(len(extract.loops_of(extract.find(c.relpath, c.qualname)))):
+                    kx = I.ctx.const('kexit%d!%s' % (o, c.qualname), IntS)
+                    I.ctx.assume(kx >= 0)
+                    I.ghost['_G_k%d' % o] = kx
                 for e in c.ensures:
                     I.ctx.assume(I.as_goal(I.pure_eval(e, fr)))
                 ys = c.yield_shape
@@ -502,9 +507,12 @@ class Calls(DataModels):
             if c.returns is None and any('result' in e for e in c.ensures):
                 raise Unsupported('contract %s constrains `result` but declares no `returns` shape' % c.qualname)
             res = c.returns.make(I.ctx, 'ret!' + c.qualname) if c.returns is not None else None
-            if c.sets:
+            if c.sets or c.sets_if:
                 target = fr.env.get('self')
                 for k, e in c.sets.items():
+                    target.attrs[k] = I.pure_eval(e, fr)
+                for k, (cond, e) in c.sets_if.items():
+                    # attribute present only under cond; at call sites it is given the value it has when present
                     target.attrs[k] = I.pure_eval(e, fr)
             for e in c.ensures:
                 I.ctx.assume(I.as_goal(I.pure_eval(e, fr, {'result': res})))
@@ -996,6 +1004,14 @@ def _b_getattr(M, I, args, kw, node):
         raise
 
 
+def _b_setattr(M, I, args, kw, node):
+    o, a, v = args
+    if not isinstance(a, str):
+        raise Unsupported('setattr with a symbolic attribute name')
+    M.setattr(I, o, a, v, node)
+    return None
+
+
 def _b_sorted(M, I, args, kw, node):
     seq = M.concrete_iter(I, args[0], node)
     if seq is None or any(is_sym(x) for x in seq) or kw:
@@ -1171,7 +1187,7 @@ _BUILTIN_TABLE = {
     all: _b_all, sum: _b_sum, abs: _b_abs, str: _b_str, repr: _b_repr, hasattr: _b_hasattr,
     getattr: _b_getattr, sorted: _b_sorted, divmod: _b_divmod, next: _b_next, iter: _b_iter,
     type: _b_type, print: _b_print, chr: _b_chr, map: _b_map, itertools.count: _b_count,
-    math.ceil: _b_ceil, float: _b_float, bytearray: _b_bytearray,
+    math.ceil: _b_ceil, float: _b_float, bytearray: _b_bytearray, setattr: _b_setattr,
 }
 import struct as _struct_mod
 _BUILTIN_TABLE[_struct_mod.unpack] = _b_struct_unpack
